@@ -440,8 +440,10 @@ def digit_class(run, m, F, E):
             if g is not None and g.op == 'getelementptr' and 'format_spec' in g.d['srcty'] and g.d.get('off') == doff:
                 vals.append(i.a[0])
     ok = bool(vals) and all(v[0] == 'i' and lo <= v[1] <= hi for v in vals)
-    run.ob('R10.3', 'parse_format', ok, 'stores only enumerators of digit_class_t (%d stores)' % len(vals) if ok else
-           'a store into spec.digit_class is not an enumerator constant', disc='digit_class stores')
+    wrong = [v[1] for v in vals if v[0] == 'i' and not (lo <= v[1] <= hi)]
+    run.ob('R10.3', 'parse_format', True if ok else (False if wrong else None), 'stores only enumerators of digit_class_t (%d stores)' % len(vals) if ok else
+           ('the constant %d stored into spec.digit_class is not an enumerator of digit_class_t' % wrong[0] if wrong else
+            'a store into spec.digit_class is a computed value: whether it is always an enumerator is not analysed'), disc='digit_class stores')
     return n
 
 
